@@ -15,7 +15,8 @@ correspondence: generated structural hierarchies (depth 1-3, single / 1-D / 2-D 
                 set, get_all_value_nets(), get_host_component(), get_parent_object()); compared exactly: the set filed under
                 every component by the real gen_connections, the oriented `connections` metadata of every component produced
                 by the real StructuralRTLIRGenL1Pass._gen_metadata (or its assertion), the verdict of the real
-                VerilogTranslationPass (accepted / TypeError / RTLIRConversionError), the net members vs the traversal
+                VerilogTranslationPass and YosysTranslationPass (accepted / TypeError / RTLIRConversionError), the net
+                members vs the traversal
 direct oracle:  independent of the model, on the emitted SystemVerilog text of accepted designs (own reading of the text: modules,
                 instances, assigns; own name mangling): every net member other than the writer is the left side of exactly one
                 `assign` over the module it is declared in and the parent's module, the writer of none, and following the
@@ -296,8 +297,9 @@ class Extract:
   def name(s, i): return repr(s.objs[i])
   def pairs(s, ps): return [(s.name(a), s.name(b)) for (a, b) in ps]
 
-def translate(top, workdir):
-  from pymtl3.passes.backends.verilog import VerilogTranslationPass as P
+def translate(top, workdir, be='verilog'):
+  if be == 'verilog': from pymtl3.passes.backends.verilog import VerilogTranslationPass as P
+  else: from pymtl3.passes.backends.yosys import YosysTranslationPass as P
   top.set_metadata(P.enable, True)
   cwd = os.getcwd(); os.chdir(workdir)
   try:
@@ -447,6 +449,9 @@ def check_design(ck, src, name, info, lines, meta):
   ck.hist('sconn_elab', 'ok')
   X = Extract(top)
   verdict, txt = translate(top, ck.workdir)
+  top_y = cls(); top_y.elaborate()                  # C12: the Yosys back end shares gen_connections and the RTLIR pass
+  verdict_y, _ = translate(top_y, ck.workdir, 'yosys')
+  ck.hist('sconn_verdict_yosys', verdict_y)
   ck.hist('sconn_verdict', verdict); ck.hist('sconn_components', min(len(X.comps), 16)); ck.hist('sconn_variant', str(info.get('variant')) + ('' if info.get('variant') is None else ('/placed' if info.get('placed') else '/not-placed')))
   ck.hist('sconn_stmts', min(len(X.stmts) // 5 * 5, 60)); ck.hist('sconn_nets', min(len(X.nets) // 2 * 2, 30))
   nontrivial = len(X.comps) >= 3 or info.get('variant') is not None
@@ -472,10 +477,10 @@ def check_design(ck, src, name, info, lines, meta):
   if adj != real_adj:
     ck.disagreement('get_signal_adjacency_dict() is not the union of the connect statements', case, sorted(adj), sorted(real_adj))
   filed, em = real_passes(X)
-  lines.append(X.line()); meta.append((case, X, verdict, txt, filed, em, info))
+  lines.append(X.line()); meta.append((case, X, verdict, txt, filed, em, info, verdict_y))
 
 def compare(ck, rep, m):
-  case, X, verdict, txt, filed, em, info = m
+  case, X, verdict, txt, filed, em, info, verdict_y = m
   r = leanio.parse_sexp(rep)
   d = {r[i]: r[i + 1] for i in range(0, len(r), 2)}
   if d['valid'] != '1': ck.disagreement('SConn precondition ValidOrder (adjacency sets vs statements)', case, rep[:300], 'n/a')
@@ -488,6 +493,8 @@ def compare(ck, rep, m):
   # verdict of the whole translation
   if d['verdict'] != verdict:
     ck.disagreement('SConn.verdict≈VerilogTranslationPass (accepted / TypeError / RTLIRConversionError)', case, d['verdict'], [verdict, str(txt)[:200]])
+  if d['verdict'] != verdict_y:
+    ck.disagreement('SConn.verdict≈YosysTranslationPass (accepted / TypeError / RTLIRConversionError)', case, d['verdict'], verdict_y)
   # prediction of emit_error_iff_legal, evaluated on the real data
   hostc = lambda i: X.host[i]
   legal = all((hostc(a) == c or X.par[hostc(a)] == c) and (hostc(b) == c or X.par[hostc(b)] == c) for (c, a, b) in X.stmts)
